@@ -1,4 +1,5 @@
 import Mutagen.Proofs.Expected
+import Mutagen.Proofs.Problems
 /-!
 # C08 — transitions never destroy content changed after the scan
 
@@ -129,6 +130,49 @@ theorem unknown_child_blocks (env : Env) (hreg : CacheRegular env.cache) (st : S
   | some x =>
     have : (transition env st plan).2.fs.get ((env.rootName :: p) ++ [n]) = some x := by simpa using hg
     exact dir_of_child _ _ n x this
+
+/-- Per-function lemma: **`removeDirectory` refuses on unknown children.** If
+the directory holds a guarded child — content the plan does not expect there,
+a file whose metadata differs from the cache, a retargeted link — then
+`removeDirectory` returns `false` (the directory is not removed) and records at
+least one more problem, for every fault oracle, sibling order and fuel. -/
+theorem removeDirectory_refuses_unknown (C : Ctx) (hreg : CacheRegular C.env.cache) (fuel : Nat) (st : St)
+    (parent : Handle) (name : Name) (path : Path) (expected : Entry) (c : Name)
+    (hi : Inv C st.fs) (hq : parent ++ [name] = C.env.rootName :: path) (hw : Within C path expected)
+    (hg : G C (parent ++ [name] ++ [c])) :
+    (removeDirectory C.env fuel st parent name path expected).1 = false ∧
+    st.problems.length < (removeDirectory C.env fuel st parent name path expected).2.2.problems.length :=
+  removeDirectory_refuses_guarded C hreg fuel st parent name path expected c hi hq hw hg
+
+/-- Problems are never dropped: the list only grows during a transition. -/
+theorem problems_only_grow (env : Env) (st : St) (plan : List Change) :
+    st.problems.length ≤ (transition env st plan).2.problems.length :=
+  np_transition env plan st
+
+/-- **…and a problem is recorded.** If a transition of the plan has a directory
+as its old entry and that directory holds a child unknown to the plan (nothing
+is expected at the child's path), then the transition records at least one
+problem — and, by `unknown_child_blocks`, the directory and the child are still
+there. -/
+theorem unknown_child_problem_recorded (env : Env) (hreg : CacheRegular env.cache) (st : St)
+    (pre post : List Change) (t : Change) (e : Entry) (c : Name) (s : Shallow)
+    (hold : t.old = some e) (hk : e.kind = .directory)
+    (hchild : sget st.fs (env.rootName :: (t.path ++ [c])) = some s)
+    (hun : ∀ pr, ¬ expectedAt (pre ++ t :: post) (t.path ++ [c]) pr) :
+    st.problems.length < (transition env st (pre ++ t :: post)).2.problems.length := by
+  apply guarded_child_problem_recorded env hreg st pre post t e c hold hk
+  refine ⟨t.path ++ [c], s, rfl, hchild, ?_⟩
+  cases s <;> first | exact Or.inl hun | exact hun
+
+/-- Facts regenerated from the Go source that the model hard-codes: the
+permission mask (`mode % 512` in `opChmod` / `findAndMove`), the temporary
+name prefix a scan ignores, and the prefix of cross-device temporaries (which
+must itself be a temporary name). A changed constant breaks this theorem. -/
+theorem transition_facts :
+    Mutagen.Facts.transitionModePermissionsMask + 1 = 512 ∧
+    Mutagen.Facts.transitionTemporaryNamePrefix = ".mutagen-temporary-" ∧
+    isTemporaryName tmpPattern = true := by
+  refine ⟨by decide, rfl, by decide +kernel⟩
 
 /-- Non-vacuity: a file that is not in the cache survives a plan that deletes it. -/
 example :
